@@ -171,9 +171,9 @@ theorem KeepsFiled.createTable (fields : List FieldDef) (name : Bytes) (order : 
     cases x
     case tableNotExist =>
       simp only
-      by_cases hc : (fields.any fun fd => decide (fd.len > 2147483647) || decide (fd.len < -2147483648)) = true
-      · rw [if_pos hc]; exact h
-      · rw [if_neg hc]
+      cases checkFieldsFrom [] fields with
+      | some e => exact h
+      | none =>
         cases checkCatalogRows fields name with
         | some e => exact h
         | none => exact KeepsFiled.createBody fields name order doFlush s1 h
@@ -192,8 +192,11 @@ theorem KeepsFiled.insert (table : Bytes) (cols : List String) (vals : List Val)
     KeepsFiled (Store.insert table cols vals) := by
   rw [insert_eq]
   refine (KeepsFiled.relationOffset _).bind fun off => (KeepsFiled.fetch _).bind fun _ =>
-    (KeepsFiled.relationSchema _).bind fun schema => KeepsFiled.ite (KeepsFiled.throw _)
-    ((KeepsFiled.encodeRow _ _).bind fun buf => (KeepsFiled.btInsert _ _).bind fun r => ?_)
+    (KeepsFiled.relationSchema _).bind fun schema => KeepsFiled.ite (KeepsFiled.throw _) ?_
+  cases checkColumns schema (colsOf schema cols) with
+  | some e => exact KeepsFiled.throw _
+  | none =>
+  refine (KeepsFiled.encodeRow _ _).bind fun buf => (KeepsFiled.btInsert _ _).bind fun r => ?_
   exact KeepsFiled.ite ((KeepsFiled.updatePageTable _ _).bind fun _ => KeepsFiled.pure _)
     (KeepsFiled.pure _)
 
